@@ -782,7 +782,7 @@ def gen(rng, tier):
                     yield L("ench", name, mode, ",".join("%x" % h for h in hs[i:i + 128]))
     # ---- float64 inputs one by one, all creation routes
     for name in NAMES:
-        xs = f64_specials(name, rng, 400 if big else 40)
+        xs = f64_specials(name, rng, 250 if big else 40)
         for mode in MODES:
             sub = xs if (big or mode == "saturate" or name in TWO_MODE) else xs[rng.randrange(8)::8]
             for x in sub:
@@ -792,7 +792,7 @@ def gen(rng, tier):
                 yield L("enc", name, mode, struct.pack(">d", half2f(h)).hex())
     # ---- scaled dtypes
     scales = list(SCALES_QUICK)
-    for _ in range(40 if big else 3):
+    for _ in range(12 if big else 3):
         scales.append(2.0 ** rng.randint(-126, 126) * rng.choice([1, -1]))
         scales.append(rng.choice([1, -1]) * rng.uniform(0.01, 100))
         scales.append(2 ** rng.randint(1, 126))
